@@ -43,7 +43,13 @@ enum { V_F_K_USER = 1,      /* key bytes == v_ref_key            (the caller's k
        V_F_D_ZERO = 64,     /* len <= 16 and all data bytes are zero                                       */
        V_F_BLK0 = 128,      /* XOR over <= 64 bytes whose input starts with 0^32 || v_ref_first[0 .. v_ref_first_len) */
        V_F_K_AUX = 256,     /* key bytes == v_ref_kaux                                                     */
-       V_F_D_REF = 512 };   /* len <= 16 and data bytes == v_ref_d[0..len)                                 */
+       V_F_D_REF = 512,     /* len <= 16 and data bytes == v_ref_d[0..len)                                 */
+       V_F_BLKREF = 1024,   /* in-place XOR over <= 64 bytes whose input == the reference block for its ordinal */
+       V_F_D_REF64 = 2048 };/* 64 data bytes == v_ref_d64                                                  */
+const unsigned char *v_ref_blks[3]; size_t v_ref_blk_lens[3];   /* expected inputs of the k-th in-place short XOR */
+const unsigned char *v_xbs[3];                                   /* its result */
+unsigned v_short_xor_count;
+const unsigned char *v_ref_d64;
 const unsigned char *v_ref_key, *v_ref_na, *v_ref_nb, *v_ref_first, *v_ref_kaux, *v_ref_d;
 size_t v_ref_first_len;             /* number of valid bytes in v_ref_first (<= 32) */
 #ifndef V_LOG_MAX
@@ -141,9 +147,18 @@ static int v_xor(int cipher, unsigned char *c, const unsigned char *m, unsigned 
                      "assumed contract of stream xor: output equals input pointer or does not overlap it");
 #endif
     if (mlen >= 32 && mlen <= 64 && v_ref_first && v_ref_first_len <= mlen - 32 && v_is_zero(m, 32) && v_eq(m + 32, v_ref_first, v_ref_first_len)) fl |= V_F_BLK0;
-    e->flags = fl;
     if (mlen > 64 && v_gidx < mlen) { e->gin = m[v_gidx]; e->has_gin = 1; }
-    if (mlen <= 64 && v_xb != NULL) v_fixed_out(c, v_xb, (size_t) mlen); else v_out(c, mlen);
+    if (mlen <= 64 && c == m) {                      /* in-place block: result is the k-th arbitrary-but-known block */
+        unsigned kx = v_short_xor_count < 3 ? v_short_xor_count : 2;
+        const unsigned char *src = v_xbs[kx] ? v_xbs[kx] : (kx == 0 ? v_xb : NULL);
+        if (v_ref_blks[kx] && v_ref_blk_lens[kx] == mlen && v_eq(m, v_ref_blks[kx], (size_t) mlen)) fl |= V_F_BLKREF;
+        v_short_xor_count++;
+        e->flags = fl;
+        if (src) v_fixed_out(c, src, (size_t) mlen); else v_out(c, mlen);
+    } else {
+        e->flags = fl;
+        v_out(c, mlen);
+    }
     return 0;
 }
 #ifdef V_STUB_CHACHA20
@@ -151,6 +166,7 @@ int crypto_stream_chacha20(unsigned char *c, unsigned long long clen, const unsi
 int crypto_stream_chacha20_xor(unsigned char *c, const unsigned char *m, unsigned long long mlen, const unsigned char *n, const unsigned char *k) { return v_xor(V_C_CHACHA20, c, m, mlen, n, 8, 0, k); }
 int crypto_stream_chacha20_xor_ic(unsigned char *c, const unsigned char *m, unsigned long long mlen, const unsigned char *n, uint64_t ic, const unsigned char *k) { return v_xor(V_C_CHACHA20, c, m, mlen, n, 8, ic, k); }
 int crypto_stream_chacha20_ietf(unsigned char *c, unsigned long long clen, const unsigned char *n, const unsigned char *k) { return v_stream(V_C_CHACHA20_IETF, c, clen, n, 12, k); }
+int crypto_stream_chacha20_ietf_xor(unsigned char *c, const unsigned char *m, unsigned long long mlen, const unsigned char *n, const unsigned char *k) { return v_xor(V_C_CHACHA20_IETF, c, m, mlen, n, 12, 0, k); }
 int crypto_stream_chacha20_ietf_xor_ic(unsigned char *c, const unsigned char *m, unsigned long long mlen, const unsigned char *n, uint32_t ic, const unsigned char *k) { return v_xor(V_C_CHACHA20_IETF, c, m, mlen, n, 12, ic, k); }
 int crypto_stream_chacha20_ietf_ext(unsigned char *c, unsigned long long clen, const unsigned char *n, const unsigned char *k) { return v_stream(V_C_CHACHA20_IETF_EXT, c, clen, n, 12, k); }
 int crypto_stream_chacha20_ietf_ext_xor_ic(unsigned char *c, const unsigned char *m, unsigned long long mlen, const unsigned char *n, uint32_t ic, const unsigned char *k) { return v_xor(V_C_CHACHA20_IETF_EXT, c, m, mlen, n, 12, ic, k); }
@@ -201,7 +217,7 @@ int crypto_onetimeauth_poly1305_update(crypto_onetimeauth_poly1305_state *state,
 {
     struct v_ev *e = v_push(V_OP_POLY_UPDATE);
     e->st = state; e->in = in; e->len = inlen; v_in(in, inlen);
-    e->flags = v_dflags(in, inlen); if (inlen == 8) e->d64 = v_le64(in);
+    e->flags = v_dflags(in, inlen) | ((inlen == 64 && v_ref_d64 && v_eq(in, v_ref_d64, 64)) ? V_F_D_REF64 : 0); if (inlen == 8) e->d64 = v_le64(in);
     return 0;
 }
 int crypto_onetimeauth_poly1305_final(crypto_onetimeauth_poly1305_state *state, unsigned char *out)
